@@ -95,7 +95,10 @@ PROPS = {
         "level_text": "Proof: C09_valid_iff (a duration exists iff sign-uniform, |y|,|mo|,|w| < 2^32, exact total < 2^53 s), "
                       "C09_negated / C09_abs, C09_compare_total (compare = order of exact totals), C09_add_exact / C09_add_comm, "
                       "C09_round_total_time / _day (round without relativeTo = RoundNumberToIncrement of the exact 24-hour-day total), "
-                      "C09_round_neg, C09_increment_divides_day, C09_total_exact. Tie: all ten fields from boundary pools (0, +-1, 2^31, "
+                      "C09_round_neg, C09_increment_divides_day, C09_total_exact, C09_noop_shortcut_sound (whenever the 'nothing to do' "
+                      "shortcut of round applies, the general path - exact total, rounded, re-balanced - returns the same duration: "
+                      "its thresholds |hours| < 24, |minutes|, |seconds| < 60, sub-second < 1000 are exactly those under which "
+                      "re-balancing is the identity; Lemmas/SplitLemmas.lean). Tie: all ten fields from boundary pools (0, +-1, 2^31, "
                       "2^32-1, 2^32, 2^53-bounds +-1, random) in valid and invalid combinations, pairs for add/compare, all units and "
                       "admissible increments for round/total; `total` is compared bit-exactly through a dyadic model of the f64 steps.",
         "level_note": "Trusted: Lean kernel (+propext, Classical.choice, Quot.sound); hand model of duration.rs (+time.rs, normalized.rs); "
